@@ -216,7 +216,8 @@ def make_persona(year, seed, archetype=None):
     elif arch == 'hsa':
         over['1040.schedule_1_income_adjustments'] = 'yes'
         over['1040_s1.hsa_contribution_you'] = 'yes'
-        over['8889:you.hsa_contributions'] = str(rng.pick([500, 1500, 3000]))
+        over['8889:you.hsa_contributions'] = str(rng.pick([500, 1500, 3000, 0, '']))
+        over['8889:you.employer_contribution'] = str(rng.pick([0, 0, 1200]))
         over['8889:you.hsa_full_year'] = 'yes'
         over['8889:you.age_under_55'] = 'yes'
         over['8889:you.hdhp_coverage'] = 'self'
